@@ -28,6 +28,8 @@ macro_rules! exception {
             concat!("exception: ", $fmt, ", exiting")
             $($tt)*
         );
+        #[cfg(feature = "verif")]
+        crate::verif::exit_hook(0xEE);
         std::process::exit(0xEE);
     }};
 }
@@ -128,6 +130,8 @@ impl RunEnvironment {
     /// Run with preset memory
     pub fn run(&mut self) {
         loop {
+            #[cfg(feature = "verif")]
+            crate::verif::tick();
             if let Some(debugger) = &mut self.debugger {
                 Output::Debugger(Condition::Always, Default::default()).start_new_line();
 
@@ -182,12 +186,64 @@ impl RunEnvironment {
             }
 
             let instr = self.state.mem[self.state.pc as usize];
+            #[cfg(feature = "verif")]
+            crate::verif::event(crate::verif::Event::Exec(self.state.pc));
             // PC incremented before instruction is performed
             self.state.pc += 1;
             self.state.execute(instr);
         }
 
         Output::Normal.start_new_line();
+    }
+}
+
+/// Verification hooks: read and write machine state, execute one instruction word.
+#[cfg(feature = "verif")]
+impl RunEnvironment {
+    pub fn verif_regs(&self) -> [u16; 8] {
+        self.state.reg
+    }
+    pub fn verif_pc(&self) -> u16 {
+        self.state.pc
+    }
+    pub fn verif_flag(&self) -> u8 {
+        self.state.flag as u8
+    }
+    pub fn verif_orig(&self) -> u16 {
+        self.state.orig
+    }
+    pub fn verif_mem(&self) -> &[u16; MEMORY_MAX] {
+        &self.state.mem
+    }
+    pub fn verif_set_reg(&mut self, reg: usize, value: u16) {
+        self.state.reg[reg] = value;
+    }
+    pub fn verif_set_pc(&mut self, value: u16) {
+        self.state.pc = value;
+    }
+    pub fn verif_set_flag(&mut self, bits: u8) {
+        self.state.flag = match bits {
+            0b100 => RunFlag::N,
+            0b010 => RunFlag::Z,
+            0b001 => RunFlag::P,
+            _ => RunFlag::Uninit,
+        };
+    }
+    pub fn verif_set_orig(&mut self, value: u16) {
+        self.state.orig = value;
+    }
+    pub fn verif_set_mem(&mut self, addr: u16, value: u16) {
+        self.state.mem[addr as usize] = value;
+    }
+    pub fn verif_execute(&mut self, instr: u16) {
+        self.state.execute(instr);
+    }
+    pub fn verif_has_debugger(&self) -> bool {
+        self.debugger.is_some()
+    }
+    /// Breakpoints of the attached debugger as `(address, is_predefined)`.
+    pub fn verif_breakpoints(&self) -> Option<Vec<(u16, bool)>> {
+        self.debugger.as_ref().map(|debugger| debugger.verif_breakpoints())
     }
 }
 
@@ -306,6 +362,8 @@ impl RunState {
                 Halting...\
                 "
             );
+            #[cfg(feature = "verif")]
+            crate::verif::exit_hook(1);
             std::process::exit(1);
         }
 
@@ -586,6 +644,8 @@ fn read_byte_stdin(mut stdin: io::Stdin) -> u8 {
             // This should NOT use `exception!`: it is an error with the
             // emulator, not the CPU
             eprintln!("unexpected end of input file stream.");
+            #[cfg(feature = "verif")]
+            crate::verif::exit_hook(1);
             std::process::exit(1);
         } else {
             panic!("failed to read character from stdin: {:?}", err)
